@@ -24,6 +24,7 @@ for m in sorted(d for d in glob.glob(os.path.join(src, "m*")) if os.path.isdir(d
     name = "%s-%s%s" % (pid, (tag + "-") if tag else "", os.path.basename(m))
     meta = json.load(open(os.path.join(m, "meta.json")))
     out = {"property": pid, "summary": meta.get("summary"), "needs": meta.get("needs"), "files": meta.get("files")}
+    shutil.rmtree("/tmp/seed-%s%s-cache" % (pid, tag), ignore_errors=True)    # a change may leave a damaged lingpy cache behind
     r = sh("git -C %s apply %s" % (wt, os.path.join(m, "patch.diff")))
     if r.returncode:
         out["confirmed"] = False; out["why"] = "patch does not apply: " + r.stderr[-300:]
